@@ -396,6 +396,11 @@ func runMgr(t *testing.T, c mgrCase) (nontrivial bool, classes []string, err err
 			runErr = m.Run(parent)
 			rec.log("run.return")
 		})
+		// a third way of waiting, documented as "block until the main runners and closers are done"
+		spawn(func() {
+			m.WaitUntilShutdown()
+			rec.log("wait.return")
+		})
 		closeErrs := make([]error, len(c.Closes))
 		for i, at := range c.Closes {
 			spawn(func() {
@@ -471,6 +476,9 @@ func runMgr(t *testing.T, c mgrCase) (nontrivial bool, classes []string, err err
 		}
 		if r := rec.find("run.return"); len(r) != 1 || r[0] != exp.tc {
 			errs.Failf("Run returned at %v, want exactly when the last closer finished (%v)", r, exp.tc)
+		}
+		if r := rec.find("wait.return"); len(r) != 1 || r[0] != exp.tc {
+			errs.Failf("WaitUntilShutdown returned at %v, want exactly when the last closer finished (%v)", r, exp.tc)
 		}
 		want := append(append([]error(nil), wantErrs...), closerWant...)
 		if msg := sameErrors(runErr, want); msg != "" {
